@@ -568,6 +568,12 @@ def check_structure(scope, funcs):
     for idx, spec in enumerate(funcs):
         k, d, t, g, explicit = spec
         fname = atoms["f%d" % idx].lower()
+        # Python and Lua present a C++ name once per table, under that name (overloads, arities and instantiations are
+        # dispatched behind it)
+        for tab, lst in list(names["py"].items()) + list(names["lua"].items()):
+            mine = [n for n in lst if fname in n.lower()]
+            if len(mine) > 1 or (mine and mine[0] != atoms["f%d" % idx]):
+                return "method table %s presents the C++ name %s as %r (expected the name itself, once)" % (tab, atoms["f%d" % idx], mine[:4]), None
         want_c, want_f = expected_counts(k, d, t, g)
         want_f1 = want_f
         if scope == "flat":
